@@ -414,7 +414,18 @@ class Flow:
         if len(set(live)) >= 2:
             for sw in self._selecting_switches(info, set(live)):
                 acc.add(("via", "select"))
-                cut = min(cut, self._q_operand(fid, b.term(sw)["on"], (), acc))
+                tmp = set()
+                cut = min(cut, self._q_operand(fid, b.term(sw)["on"], (), tmp))
+                # control dependence is kept apart from data dependence: parameters get a '#sel' path marker
+                for s_ in tmp:
+                    if s_[0] == "param":
+                        acc.add(("param", s_[1], tuple(s_[2]) + (("#sel",) if "#sel" not in s_[2] else ())))
+                    elif s_[0] == "via":
+                        acc.add(("via", s_[1] if s_[1].startswith("sel:") or s_[1] == "select" else "sel:" + s_[1]))
+                    elif s_[0] == "const":
+                        pass
+                    else:
+                        acc.add(s_)
         return frozenset(acc), cut
 
     def _selecting_switches(self, info, def_bbs):
@@ -586,6 +597,8 @@ class Flow:
             return self._q_operand(fid, args[0], rest, acc)
         # closure call: `<closure as Fn*>::call*(clo, (args,))`
         if tgt in self.F.fns:
+            # the *returned value* of this call site reaches the queried location (side effects go through _effect)
+            acc.add(("callres", short(self.F.fns[tgt].name), (t.get("fsp") or [None, 0])[1]))
             return self._apply_summary(fid, tgt, args, 0, rest, acc, name)
         # unresolved trait method with workspace impls: union over impls
         impls = [g.id for g in self.F.fns.values() if g.trait_item == d] if (r is None and is_workspace_id(d)) else []
